@@ -165,6 +165,9 @@ func init() {
 			"the reference for Close is what the inner HTTPClient returned, not what the server sent (net/http may legitimately report a write error or the early response)",
 			"a deadlock is a stable blocked state of the library goroutines after the server script has ended (200 identical consecutive observations); the 120 s watchdog only ever yields inconclusive",
 			"transport keep-alive goroutines are not library goroutines; double Close is outside the statement",
+			"a 2xx status line with its header block is 'the server has answered': the library has no use for the body of a 2xx answer to a PUT, so a body that never completes (short of its Content-Length, no last-chunk) on a connection the server keeps open must not keep Close from returning nil; for non-2xx answers, whose body the client reads for the error condition, no such cell exists",
+			"once the caller has cancelled the context the request is over whatever the server does: a Write or Close that stays blocked after that is a deadlock",
+			"the raw multi-user schedules compare every answer with the answer of an identical but separate handler instance serving one request at a time; the backend double may yield or sleep a few microseconds at the start of an operation (a slow backend)",
 			"race reports whose stacks hold only harness frames are harness bugs: inconclusive, never a violation",
 		},
 		Shards:      func(t string) int { return 8 },
